@@ -28,11 +28,17 @@ def bound(rng, n):
 def gen(rng, tier, run):
     ndim = rng.choice([1, 1, 2, 2, 3, 4])
     shape = [rng.choice([1, 1, 2, 3, 4, 5, 6]) for _ in range(ndim)]
+    if rng.random() < 0.06:
+        shape = [rng.choice([257, 300, 1000])] + shape[1:2]       # a long axis (beyond the small integers CPython shares)
     kinds = [rng.choice('ec') for _ in range(ndim)]
     slices = [[bound(rng, n), bound(rng, n)] if rng.random() < 0.8 else [None, None] for n in shape]
     # an explicitly written unit step is a unit step too (ds[-2::1])
+    kinds = kinds[:len(shape)]
+    slices = [[bound(rng, n), bound(rng, n)] if rng.random() < 0.8 else [None, None] for n in shape]
+    # an explicitly written unit step is a unit step too (ds[-2::1]); bounds may be numpy integers (np.searchsorted, argmax)
     return {'shape': shape, 'kinds': kinds, 'slices': slices,
-            'steps': [1 if rng.random() < 0.3 else None for _ in shape]}
+            'steps': [1 if rng.random() < 0.3 else None for _ in shape],
+            'npint': rng.choice([None, None, 'int64', 'int32', 'intp'])}
 
 
 def exhaustive(tier, run):
@@ -64,15 +70,15 @@ def shrink(case):
     nd = len(case['shape'])
     for ax in range(nd):
         if nd > 1:
-            yield {k: v[:ax] + v[ax + 1:] for k, v in case.items()}
+            yield {k: (v[:ax] + v[ax + 1:] if isinstance(v, list) else v) for k, v in case.items()}
     for ax in range(nd):
         if case['shape'][ax] > 1:
-            new = {k: list(v) for k, v in case.items()}
+            new = {k: (list(v) if isinstance(v, list) else v) for k, v in case.items()}
             new['shape'][ax] -= 1
             yield new
         for part in (0, 1):
             if case['slices'][ax][part] is not None:
-                new = {k: [list(x) if isinstance(x, list) else x for x in v] for k, v in case.items()}
+                new = {k: ([list(x) if isinstance(x, list) else x for x in v] if isinstance(v, list) else v) for k, v in case.items()}
                 new['slices'][ax][part] = None
                 yield new
 
@@ -100,7 +106,9 @@ def run_impl(case, run):
     before = (value.copy(), error.copy(), [(k, v.copy()) for k, v in bins.items()])
     out = {}
     steps = case.get('steps') or [None] * len(case['slices'])
-    index = tuple(slice(a, b, st) for (a, b), st in zip(case['slices'], steps))
+    def npi(x):
+        return x if x is None or not case.get('npint') else getattr(np, case['npint'])(x)
+    index = tuple(slice(npi(a), npi(b), st) for (a, b), st in zip(case['slices'], steps))
     if len(index) == 1 and run.rng.random() < 0.5:
         index = index[0]
     try:
